@@ -122,6 +122,10 @@ def check_state(ck, rng, g, c, state, hist):
 def history_case(ck, I, rng, t, coq):
     kind = ['fits', 'gwcs'][t % 2]
     g = G.gen_fits_geom(rng, t // 2) if kind == 'fits' else G.gen_gwcs_geom(rng, t // 2)
+    if kind == 'fits' and (t // 2) % 4 == 1:
+        # look-up-table distortions (CPDIS only, DET2IM only, both), with or without SIP
+        g = dict(g, lut=G.gen_lut(rng))
+    ck.count('fits_lookup_table_distortion', (g.get('lut') or {}).get('which', 'none') if kind == 'fits' else 'gwcs')
     c = G.make_corrector(I, g)
     c_built = c.copy()
     unit = G.pix_scale_arcsec(g) / G.tan_scale_arcsec(g)
